@@ -1,6 +1,7 @@
 import Driver.Proto
 import Std.Data.HashMap
 import DvidModel.Model.Block
+import DvidModel.Model.BlockParse
 namespace Driver
 open Dvid Dvid.Block
 
@@ -41,6 +42,13 @@ def blockOps (b : Block) (w : List String) : Option (Block × String) :=
       let nd := if ls.size < 2 then true else noDupSB b'
       some (b', s!"ok wf={boolStr w} nodup={boolStr nd}")
     | _, _, _, _, _, _, _ => some (b, "bad-op")
+  | ["blk.parse", h] =>
+    match ofHex h with
+    | some bs =>
+      match BlockParse.receive bs.toArray with
+      | some pb => let d := decode pb; some (b, s!"ok {d.size} {fnvLabels d}")
+      | none => some (b, "err")
+    | none => some (b, "bad-op")
   | ["blk.hash"] => let d := decode b; some (b, s!"ok {d.size} {fnvLabels d}")
   | ["blk.value", x, y, z] =>
     match intArg x, intArg y, intArg z with
